@@ -589,8 +589,31 @@ def c15(ctx):
 
 
 # ----------------------------------------------------------------------------- C04
+def length_sweep(rng, enabled):
+    """every total setting length around the limits of the 384-byte output field, for every method:
+    the salt (sunmd5, scrypt) or the ignored tail after the salt is stretched one character at a time"""
+    out = []
+    for m in enabled:
+        base = cheap_setting(m, rng)
+        for L in list(range(300, 400)) + [511, 512, 1023]:
+            if L <= len(base) + 1:
+                continue
+            if m == "sunmd5":
+                variants = ["$md5$" + gen.salt(rng, L - 5), "$md5$rounds=1$" + gen.salt(rng, L - 14), "$md5$" + gen.salt(rng, L - 6) + "$"]
+            elif m == "scrypt":
+                variants = [base + gen.salt(rng, L - len(base)), base + "$" + gen.salt(rng, L - len(base) - 1)]
+            elif m in ("yescrypt", "gost_yescrypt", "sha512crypt", "sha256crypt", "md5crypt", "sha1crypt"):
+                variants = [base + "$" + gen.salt(rng, L - len(base) - 1), base + gen.salt(rng, L - len(base))]
+            else:
+                variants = [base + gen.salt(rng, L - len(base))]
+            out += variants
+    return out
+
+
 def fuzz_script(ctx, rng, enabled, n):
-    cmds = ["hset 0 0 0"]
+    cmds = ["hset 0 0 0", "obj 0 %d 1" % rng.randrange(16)]
+    for s in length_sweep(rng, enabled):
+        cmds.append("%s 0 %s %s" % (rng.choice(("crypt_rn", "crypt_r")), hx(gen.rand_phrase(rng, rng.choice((1, 9)))), hx(s)))
     for i in range(n):
         if i % 50 == 0:
             cmds.append("obj 0 %d %d" % (rng.randrange(16), rng.choice((0, 1, 2))))
@@ -1546,7 +1569,21 @@ def c17(ctx):
 
 
 def des_tables(ctx):
-    return {"note": "table-entry check: see DesTables.tla (added with the C17 extension)"}
+    """every entry of the generated lookup tables against its FIPS-derived definition (DesTables.tla)"""
+    ev = run_prim(ctx, ["destables"])
+    tr, vf = os.path.join(ctx.dir, "destab.ndjson"), os.path.join(ctx.dir, "destab.verdict.json")
+    with open(tr, "w") as f:
+        for e in ev:
+            f.write(json.dumps(e, separators=(",", ":")) + "\n")
+    res = ctx.tlc("DesTables.tla", "DesTables.cfg", env={"XCV_TRACE": tr, "XCV_VERDICT": vf}, workers=1, timeout=900)
+    if not os.path.exists(vf):
+        raise Broken("DesTables produced no verdict:\n" + res["out"][-1500:])
+    v = json.load(open(vf))
+    if v["consumed"] != v["lines"] or v["entries"] < 29000:
+        raise Broken("DES table dump incomplete: %s" % v)
+    for bad in v["bad"][:10]:
+        ctx.violation("C17", "lookup table entry differs from its FIPS 46-3 definition", bad)
+    return {"entries_checked": v["entries"], "bad": len(v["bad"]), "exhaustive": True}
 
 
 # ============================================================================= C20
